@@ -195,6 +195,7 @@ def run(ck):
     require(ck, "FLD", "InconsistentBaseField", m, "reject iff the AIR's field modulus differs from the modulus bytes in the proof context")
     # (5) formula
     formula(ck, prog)
+    options_equality_rule(ck, prog)
     controls(ck, prog)
 
 
@@ -304,3 +305,155 @@ def controls(ck, prog):
     for conds, res in exp:
         mutated.add((conds, norm(("op", "add", (res, ("k", 0))))))
     ck.control("normal-form comparison is not vacuous (a perturbed formula differs)", mutated != exp)
+
+
+def options_equality_rule(ck, prog):
+    """EQ: the option-set policy accepts a proof iff its options EQUAL a listed set — so what `==` means for ProofOptions is part of the
+    policy. Decided: (a) the PartialEq impl compares every field of the struct with the same field of the other operand (what
+    `#[derive(PartialEq)]` generates) — then equality is structural; or (b) it compares the results of one encoding function applied to
+    both operands: the encoding's return expression is extracted and evaluated on the model of all legal option values (limits from the
+    compiled constants) and must be injective there (seed C18-N: a bit-packed encoding whose grinding field is one bit short makes
+    grinding 32 collide with another field extension). Anything else is reported as not decided."""
+    from ..flow import flow
+    from ..cfg import single_def
+    from ..ir import op_place, op_local
+    from .exempt import expr_at, strip_conv
+    ck.rule("EQ", "equality of ProofOptions (the comparison the option-set policy makes) is structural, or an injective encoding on the legal option values")
+    adt = "winter_air::options::ProofOptions"
+    eqs = [f for f in prog.fns.values() if f.nname == f"<{adt} as core::cmp::PartialEq>::eq" and f.blocks]
+    if not eqs:
+        ck.note("EQ: no PartialEq impl of ProofOptions found; not decided")
+        return
+    f = eqs[0]
+    ck.saw(f)
+    names = [x if isinstance(x, str) else x.get("name") for x in prog.adt_fields(adt)]
+
+    def field_of(op, param):
+        """name of the field of parameter `param` this operand is a plain copy / borrow of"""
+        p = op_place(op)
+        for _ in range(6):
+            if p is None:
+                return None
+            fl = [e for e in p.get("p", []) if isinstance(e, dict) and e.get("of") == adt and e.get("n")]
+            if p.get("l") == param and fl:
+                return fl[0]["n"]
+            d = single_def(f, p["l"]) if "p" not in p or p.get("p") == ["deref"] else None
+            if d is None or d[1] == "T":
+                return None
+            rv = d[2]["rv"]
+            p = rv["p"] if rv["k"] == "ref" else (op_place(rv["a"]) if rv["k"] in ("use", "cast") else None)
+        return None
+    compared = set()
+    for b, i, st in f.assigns():
+        rv = st["rv"]
+        if rv["k"] == "bin" and rv["op"] in ("Eq", "Ne"):
+            a, c = field_of(rv["a"], 1), field_of(rv["b"], 2)
+            if a and a == c:
+                compared.add(a)
+            a, c = field_of(rv["a"], 2), field_of(rv["b"], 1)
+            if a and a == c:
+                compared.add(a)
+    for b, t in f.calls():
+        if (callee_name(t) or "").endswith(("PartialEq::eq", "PartialEq::ne")) and len(t["args"]) == 2:
+            a, c = field_of(t["args"][0], 1), field_of(t["args"][1], 2)
+            if a and a == c:
+                compared.add(a)
+    if compared == set(names):
+        ck.ob("EQ", "ProofOptions:eq:structural", True, f"ProofOptions == compares all {len(names)} fields pairwise", loc=f.loc())
+        return
+    # (b) an encoding applied to both operands
+    enc = None
+    for b, i, st in f.assigns():
+        rv = st["rv"]
+        if rv["k"] == "bin" and rv["op"] == "Eq":
+            da, db = single_def(f, op_local(rv["a"])), single_def(f, op_local(rv["b"]))
+            if da and db and da[1] == "T" and db[1] == "T" and callee_name(da[2]) == callee_name(db[2]):
+                hs, precise = prog.resolve_call(da[2])
+                if precise and len(hs) == 1:
+                    enc = hs[0]
+    if enc is None:
+        ck.note(f"EQ: ProofOptions == compares only {sorted(compared)} directly and is not an encoding comparison the rule recognises; not decided")
+        return
+    ck.saw(enc)
+    try:
+        ps = list(paths(enc))
+    except TooComplex:
+        ps = []
+    if len(ps) != 1 or ps[0][0]:
+        ck.note("EQ: the encoding behind ProofOptions == is not a single straight-line expression; not decided")
+        return
+    e = norm(ps[0][1])
+
+    def cval(suffix, default):
+        vs = {int(v["scalar"]) for k, v in prog.consts.items() if k.endswith(suffix) and str(v.get("scalar") or "").isdigit()}
+        return vs.pop() if len(vs) == 1 else default
+    model = {"num_queries": [1, cval("options::MAX_NUM_QUERIES", 255)], "blowup_factor": [2, cval("options::MAX_BLOWUP_FACTOR", 128)],
+             "grinding_factor": [0, 1, cval("options::MAX_GRINDING_FACTOR", 32) - 1, cval("options::MAX_GRINDING_FACTOR", 32)],
+             "field_extension": [1, 2, 3], "fri_folding_factor": [2, 4, 8, 16], "fri_remainder_max_degree": [0, 1, cval("options::FRI_MAX_REMAINDER_DEGREE", 255)]}
+    if set(model) != set(names):
+        ck.note("EQ: the fields of ProofOptions differ from the model of legal values the rule knows; not decided")
+        return
+
+    def ev(x, cur):
+        if not isinstance(x, tuple):
+            return None
+        if x[0] == "k":
+            if isinstance(x[1], int):
+                return x[1]
+            c = prog.consts.get(str(x[1]))
+            return int(c["scalar"]) if c and str(c.get("scalar") or "").isdigit() else None
+        if x[0] == "field" and x[1] == adt and x[3] == ("p", 1):
+            return cur.get(x[2])
+        if x[0] == "un" and x[1] in ("discr", "as_", "proj"):
+            return ev(x[2], cur)
+        if x[0] == "op":
+            vs = [ev(y, cur) for y in x[2]]
+            if any(v is None for v in vs):
+                return None
+            op = x[1]
+            try:
+                if op == "add":
+                    return sum(vs)
+                if op == "mul":
+                    r_ = 1
+                    for v in vs:
+                        r_ *= v
+                    return r_
+                if op == "or":
+                    r_ = 0
+                    for v in vs:
+                        r_ |= v
+                    return r_
+                if op == "xor":
+                    r_ = 0
+                    for v in vs:
+                        r_ ^= v
+                    return r_
+                if op == "and":
+                    r_ = vs[0]
+                    for v in vs[1:]:
+                        r_ &= v
+                    return r_
+                if len(vs) == 2:
+                    a_, b_ = vs
+                    return {"sub": a_ - b_, "shl": (a_ << b_) & (2 ** 64 - 1) if 0 <= b_ < 64 else None, "shr": a_ >> b_ if 0 <= b_ < 64 else None,
+                            "div": a_ // b_ if b_ else None, "rem": a_ % b_ if b_ else None}.get(op)
+            except Exception:
+                return None
+        return None
+    import itertools
+    seen, clash = {}, None
+    for combo in itertools.product(*[model[n] for n in names]):
+        cur = dict(zip(names, combo))
+        kv = ev(e, cur)
+        if kv is None:
+            ck.note("EQ: the encoding behind ProofOptions == has a leaf the rule cannot evaluate; not decided")
+            return
+        if kv in seen and seen[kv] != combo and clash is None:
+            clash = (seen[kv], combo)
+        seen.setdefault(kv, combo)
+    ck.ob("EQ", "ProofOptions:eq:encoding-injective", clash is None,
+          f"ProofOptions == compares {enc.nname.split('::')[-1]}() of both operands, which is injective on the legal option values ({len(seen)} distinct of "
+          f"{len(list(itertools.product(*[model[n] for n in names])))} model points)", loc=enc.loc(),
+          detail=None if clash is None else f"{dict(zip(names, clash[0]))} and {dict(zip(names, clash[1]))} have the same encoding: an option set that lists one "
+                                            "accepts proofs made with the other")
